@@ -42,7 +42,13 @@ func (s *State) Persist() error {
 	return s.config.storage.Save(s.name, s.snapshot, s.events)
 }
 func (s *State) Load() (snapshot Snapshot, events []Event, err error) {
-	return s.config.storage.Load(s.name)
+	snapshot, events, err = s.config.storage.Load(s.name)
+	if err == nil {
+		// 运行时状态从已存储的记录继续，否则以相同名称重新创建的 Actor 在下一次持久化时会丢失之前的历史
+		s.snapshot = snapshot
+		s.events = append([]Event(nil), events...)
+	}
+	return
 }
 
 func (s *State) Clear() error {
